@@ -29,6 +29,7 @@ structure Inv (s : State ρ) : Prop where
   rules_ok : ∀ r ∈ s.rules, r.id < s.ruleId ∧ connected s r.conn = true ∧ r.id ∈ rulesOf s r.conn
   ids_bound : ∀ j id, id ∈ rulesOf s j → id < s.ruleId
   ids_inj : ∀ j j' id, id ∈ rulesOf s j → id ∈ rulesOf s j' → j = j'
+  ids_present : ∀ j id, id ∈ rulesOf s j → connected s j = true → ∃ r ∈ s.rules, r.id = id
 
 theorem Inv.init : Inv (State.init : State ρ) := by
   constructor <;> simp [State.init, dget, nameOf, rulesOf]
@@ -46,6 +47,7 @@ theorem Inv.transfer {s s' : State ρ}
   · intro r hr'; rw [h3] at hr'; rw [h4, hc, hr]; exact inv.rules_ok r hr'
   · intro j id h; rw [hr] at h; rw [h4]; exact inv.ids_bound j id h
   · intro j j' id h h'; rw [hr] at h h'; exact inv.ids_inj j j' id h h'
+  · intro j id h hcj; rw [hr] at h; rw [hc] at hcj; rw [h3]; exact inv.ids_present j id h hcj
 
 theorem Inv.frame {s s' : State ρ} (h : FrameOwners s s') (inv : Inv s) : Inv s' := by
   obtain ⟨h1, h2, h3, h4, h5⟩ := h
@@ -122,6 +124,10 @@ theorem Inv.connect {s s' : State ρ} (inv : Inv s) (h1 : s'.conns = s.conns ++ 
     rw [connected_append_lt s s' h1 _ (connected_true_lt s _ b)]; exact b
   · intro j id h; rw [hr] at h; rw [h4]; exact inv.ids_bound j id h
   · intro j j' id h h'; rw [hr] at h h'; exact inv.ids_inj j j' id h h'
+  · intro j id h hcj
+    rw [hr] at h
+    rw [connected_append_lt s s' h1 j (mem_rulesOf_lt s j id h)] at hcj
+    rw [h3]; exact inv.ids_present j id h hcj
 
 /-! ### the first message: a fresh name -/
 
@@ -194,6 +200,7 @@ theorem Inv.named {s s' : State ρ} (inv : Inv s) (i : ConnId) (c : Conn)
   · intro r hr'; rw [h3] at hr'; rw [h4, hcn, hr]; exact inv.rules_ok r hr'
   · intro j id h; rw [hr] at h; rw [h4]; exact inv.ids_bound j id h
   · intro j j' id h h'; rw [hr] at h h'; exact inv.ids_inj j j' id h h'
+  · intro j id h hcj; rw [hr] at h; rw [hcn] at hcj; rw [h3]; exact inv.ids_present j id h hcj
 
 /-! ### AddMatch -/
 
@@ -263,6 +270,19 @@ theorem Inv.addMatch {s s' : State ρ} (inv : Inv s) (i : ConnId) (c : Conn) (r 
       · rw [hj']; exact inv.ids_inj j i id h h'
     · rw [if_neg hj] at h; rw [if_neg hj'] at h'
       exact inv.ids_inj j j' id h h'
+  · intro j id h hcj
+    rw [hr] at h
+    rw [hcn] at hcj
+    rw [h3]
+    by_cases hj : j = i
+    · rw [if_pos hj] at h
+      rcases List.mem_cons.mp h with e | h
+      · exact ⟨⟨s.ruleId, i, r⟩, by simp, e.symm⟩
+      · obtain ⟨x, hx, hxe⟩ := inv.ids_present i id h (by rw [← hj]; exact hcj)
+        exact ⟨x, List.mem_append_left _ hx, hxe⟩
+    · rw [if_neg hj] at h
+      obtain ⟨x, hx, hxe⟩ := inv.ids_present j id h hcj
+      exact ⟨x, List.mem_append_left _ hx, hxe⟩
 
 /-! ### disconnect -/
 
@@ -333,6 +353,21 @@ theorem Inv.disconnect {s s' : State ρ} (inv : Inv s) (i : ConnId) (c : Conn)
     · rw [if_neg hj]; exact b
   · intro j id h; rw [hr] at h; rw [h4]; exact inv.ids_bound j id h
   · intro j j' id h h'; rw [hr] at h h'; exact inv.ids_inj j j' id h h'
+  · intro j id h hcj
+    rw [hr] at h
+    rw [hcn] at hcj
+    by_cases hj : j = i
+    · rw [if_pos hj] at hcj; exact absurd hcj (by simp)
+    · rw [if_neg hj] at hcj
+      obtain ⟨x, hx, hxe⟩ := inv.ids_present j id h hcj
+      refine ⟨x, ?_, hxe⟩
+      rw [h3, List.mem_filter]
+      refine ⟨hx, ?_⟩
+      have : x.id ∉ c.matchRules := by
+        intro hin
+        rw [hxe, ← hi_rules] at hin
+        exact hj (inv.ids_inj j i id h hin)
+      simp [this]
 
 end
 end Txdbus.BusRoute
